@@ -25,6 +25,7 @@ Program (lines form)
       ['error', expr] ['onerror', n] ['resume', None|0|'next'|n]
       ['read', [target, ...]] ['data', [[raw, sval|None, nval|None], ...]] ['restore', n|None]
       ['dim', 'A%', size]
+      ['nop', basic_text] / ['nop', basic_text, 'dead']   no visible effect / only ever skipped over
       ['rem', text] / ['rem', text, "'"]   REM text / ' text (last statement of its line)
       ['fault', basic_text, code]     opaque statement that always raises `code` (documented GW-BASIC error)
       ['deffn', 'FNA', body_text, code|None, 'soft'?]   DEF FNA(X)=body_text ; calling it raises `code` (None: no error)
@@ -771,11 +772,20 @@ class Machine(object):
             self.pc = (rli, roi + 1)
         else:
             if where not in self.index:
+                # whether the Undefined line number of the RESUME itself counts as an error inside the handler
+                # (stops) or as an ordinary error (trapped again) is not pinned
                 raise Unpinned('RESUME to a missing line')
             self._ev('resume:line')
             self.pc = (self.index[where], 0)
 
     # DATA
+    def _x_nop(self, li, oi, op):
+        # a statement without effect on anything the trace shows (scratch variables X9, X9$, X9%);
+        # marked 'dead' it stands in a region that is never executed
+        if len(op[1]) > 2 and op[1][2] == 'dead':
+            raise Unpinned('a statement placed in a never-executed region was reached')
+        self._advance(li, oi)
+
     def _x_rem(self, li, oi, op):
         # a remark takes the rest of its line
         self.pc = (li, len(self._ops(li)))
